@@ -264,7 +264,7 @@ pub fn collect_refs(tm: &Tm, out: &mut Vec<NodeId>) {
         Tm::Ref(n) => out.push(*n),
         Tm::Const(_) | Tm::LhsConst(_) | Tm::Shared(_) | Tm::ScopedVar(_) => {}
         Tm::Map(_, a) | Tm::MapCap(_, a, _) => collect_refs(a, out),
-        Tm::Map2(_, a, b) | Tm::Scratch(a, b) => {
+        Tm::Map2(_, a, b) | Tm::Scratch(a, b) | Tm::Keep(a, b) => {
             collect_refs(a, out);
             collect_refs(b, out);
         }
@@ -384,6 +384,17 @@ pub fn build_tm(tm: &Rc<Tm>, ctx: &BuildCtx, env: &Rc<BindEnv>) -> Incr<i64> {
                 sctx.scratch = true;
                 let tmp = build_tm(a, &sctx, env);
                 drop(tmp);
+            }
+            build_tm(b, ctx, env)
+        }
+        Tm::Keep(a, b) => {
+            let kept = build_tm(a, ctx, env);
+            if !sh.tearing_down.get() {
+                let mut ring = sh.kept.borrow_mut();
+                ring.push_back(kept);
+                if ring.len() > 12 {
+                    ring.pop_front();
+                }
             }
             build_tm(b, ctx, env)
         }
